@@ -302,7 +302,9 @@ if __name__ == "__main__":
 
 def gen_all():
     import sites
-    out = {"shape": gen_shape(), "effects": gen_effects(), "api": gen_api(), "sites": sites.gen_sites()}
+    import translate
+    out = {"shape": gen_shape(), "effects": gen_effects(), "api": gen_api(), "sites": sites.gen_sites(),
+           "kernels": translate.gen_kernels()}
     return out
 
 
